@@ -23,6 +23,7 @@ import Sds.Generated.SerConsts
 import Sds.Proofs.GenEqEnable
 import Sds.Proofs.GenEqLoad
 import Sds.Proofs.GenEqIdx
+import Sds.Proofs.GenEqSkip
 
 namespace Sds.C19
 open Sds Outcome SupportProofs
@@ -352,5 +353,12 @@ theorem composite_loaders_as_translated_from_source (m : Mode) (es : Elems) (uni
 example : Generated.gen_SparseBuilder_get_buckets .checked 1000 64 = ok 1 ∧
     Generated.gen_SparseBuilder_get_buckets .wrapping 1000 64 = ok 1 ∧
     Generated.gen_SparseBuilder_get_buckets .checked 0 64 = ok 0 := by decide
+
+/-- **`skip_option` as translated from the source on this run**: after a successful skip the reader stands exactly behind
+the optional structure (`n` elements after the prefix), whatever the structure contains -/
+theorem skip_option_as_translated_moves_exactly_past (m : Mode) (n : Word) (body rest : Elems) (hn : n.toNat < 2 ^ 61)
+    (hb : body.length = n.toNat) : Generated.gen_skip_option m (n :: (body ++ rest)) = ok ((), rest) := by
+  rw [GenEq.skip_option_eq m _ (by intro n' r' h; cases h; exact hn)]
+  simp [GenEq.skipSpecR, skipOptionSpec, readElem, ← hb]
 
 end Sds.C19
